@@ -93,6 +93,8 @@ func (h *Heap[T]) Item(i int) T {
 
 func (h *Heap[T]) UpdateAt(i int, item T) {
 	h.a[i] = item
+	// Reorders the array under any live iterator.
+	h.gen++
 	h.notifyIndexChanged(i)
 	h.percolateUp(i)
 	h.percolateDown(i)
